@@ -3899,3 +3899,114 @@ func E4FlaggedPairRealBreak(c *core.Ctx, r *core.Report) {
 	r.Count("E4.flagged-pair-sites", n)
 	r.Floor("E4.flagged-pair-sites", 1)
 }
+
+// E4DeactivationWithoutPenaltyWidth: a node is given up only when later breaks cannot fit either.
+func E4DeactivationWithoutPenaltyWidth(c *core.Ctx, r *core.Report) {
+	r.Rule("E4.deactivation-without-penalty-width", "Linebreak drops an active node when the line from it to the current item cannot be shrunk to fit, because lines only get longer — except for the width of a penalty (the hyphen), which belongs to a break at that penalty alone. The condition under which mainLoop removes a node for being too long therefore consults the width of the current item (through the boolean locals it is made of) and compares the line width with the sums W and Z of the linebreaker and the node without it; a test of the adjustment ratio alone gives up `Box(100) Penalty(width 5)` in a width of 100 at the penalty and reports an overflow for a paragraph that fits")
+	p := c.MustPkg("text")
+	info := p.TypesInfo
+	fd := core.MustFuncDecl(p, "linebreaker.mainLoop")
+	n := 0
+	ast.Inspect(fd.Body, func(m ast.Node) bool {
+		is, ok := m.(*ast.IfStmt)
+		if !ok {
+			return true
+		}
+		removes := false
+		for _, st := range is.Body.List {
+			if es, ok := st.(*ast.ExprStmt); ok {
+				if call, ok := es.X.(*ast.CallExpr); ok {
+					if f := core.CalleeOf(info, call); f != nil && f.Name() == "Remove" {
+						removes = true
+					}
+				}
+			}
+		}
+		if !removes {
+			return true
+		}
+		n++
+		key := fmt.Sprintf("text.linebreaker.mainLoop|node removal #%d", n)
+		// the expressions the condition is made of, through boolean locals
+		var exprs []ast.Expr
+		seen := map[types.Object]bool{}
+		var collect func(e ast.Expr)
+		collect = func(e ast.Expr) {
+			exprs = append(exprs, e)
+			ast.Inspect(e, func(q ast.Node) bool {
+				id, ok := q.(*ast.Ident)
+				if !ok {
+					return true
+				}
+				o := core.ObjOf(info, id)
+				if o == nil || seen[o] {
+					return true
+				}
+				if bt, ok := o.Type().Underlying().(*types.Basic); !ok || bt.Info()&types.IsBoolean == 0 {
+					return true
+				}
+				seen[o] = true
+				ast.Inspect(fd.Body, func(k ast.Node) bool {
+					switch x := k.(type) {
+					case *ast.AssignStmt:
+						for i, l := range x.Lhs {
+							if lid, ok := l.(*ast.Ident); ok && core.ObjOf(info, lid) == o && i < len(x.Rhs) {
+								collect(x.Rhs[i])
+							}
+						}
+					case *ast.IfStmt:
+						// the condition under which the local is reassigned
+						for _, st := range x.Body.List {
+							if as, ok := st.(*ast.AssignStmt); ok {
+								for _, l := range as.Lhs {
+									if lid, ok := l.(*ast.Ident); ok && core.ObjOf(info, lid) == o {
+										exprs = append(exprs, x.Cond)
+									}
+								}
+							}
+						}
+					}
+					return true
+				})
+				return true
+			})
+		}
+		collect(is.Cond)
+		mentionsField := func(e ast.Node, field string) bool {
+			hit := false
+			ast.Inspect(e, func(q ast.Node) bool {
+				if se, ok := q.(*ast.SelectorExpr); ok && se.Sel.Name == field {
+					hit = true
+				}
+				return true
+			})
+			return hit
+		}
+		usesRatioOnly, consultsWidth, comparesSums := true, false, false
+		for _, e := range exprs {
+			if mentionsField(e, "Width") {
+				consultsWidth = true
+			}
+			ast.Inspect(e, func(q ast.Node) bool {
+				be, ok := q.(*ast.BinaryExpr)
+				if !ok || (be.Op != token.LSS && be.Op != token.GTR && be.Op != token.LEQ && be.Op != token.GEQ) {
+					return true
+				}
+				if mentionsField(be, "width") && mentionsField(be, "W") && mentionsField(be, "Z") && !mentionsField(be, "Width") {
+					comparesSums = true
+					usesRatioOnly = false
+				}
+				return true
+			})
+		}
+		_ = usesRatioOnly
+		if consultsWidth && comparesSums {
+			r.OK("E4.deactivation-without-penalty-width", key, c.Pos(is.Pos()), "")
+		} else {
+			r.Fail("E4.deactivation-without-penalty-width", key, c.Pos(is.Pos()), fmt.Sprintf("the node is removed under `%s`, which does not set the width of a penalty aside (no test of the item's Width together with a comparison of the line width against W and Z without it): the node is lost at a penalty with a width although the line up to a later break fits", c.Src(is.Cond)))
+		}
+		return true
+	})
+	r.Count("E4.node-removals", n)
+	r.Floor("E4.node-removals", 1)
+}
